@@ -16,6 +16,10 @@
             the catch-up loop runs while the primary is newer and advances only the fallback.
   C19.BUF   the fallback engine's receiver is created with the default capacity (like every other
             formula input).
+  C19.TICK  once the fallback runs, every tick of fetch_next_with_fallback reads it.
+
+LAZY / ERR are decided per scenario (fallback configured / running, received primary valid) on the CFG;
+roles are bound by dataflow (sa/props/_c06_util.py).
 """
 from __future__ import annotations
 
